@@ -3,6 +3,8 @@ import CandidModel.Proofs.SubComplete
 import CandidModel.Proofs.SubTrans
 import CandidModel.Proofs.EqSub
 import CandidModel.Proofs.EqTrans
+import CandidModel.Proofs.EqSubRef
+import CandidModel.Proofs.EqComplete
 /-
   C05 — Subtype and upgrade checks decide the spec relation, independent of order and history.
   Structural facts about the specification relation, and soundness of the checking algorithm (memo table,
@@ -195,42 +197,59 @@ theorem equal_check_is_sound_after_history (env : Env) (n : Nat) (g g' : Gamma) 
     (h : eqAlg env n g a b = .yes g') : TyEq env a b ∧ EJustified env g' :=
   eqAlg_sound_history env n g g' a b hj h
 
+/-- **The `equal` check never rejects a pair of equal types**, whatever memo it is started with and for any
+environment: with `equal_check_is_sound_after_history`, both definite answers decide `TyEq` (what is left is the depth
+budget, answer `out`, and the panics on unresolved names). -/
+theorem equal_check_never_rejects_wrongly (env : Env) (n : Nat) (g : Gamma) (a b : Ty)
+    (h : eqAlg env n g a b = .no) : ¬ TyEq env a b :=
+  fun heq => Wire.eqAlg_never_rejects env n g a b heq h
+
+/-- both definite answers of a fresh `equal` check decide type equality -/
+theorem definite_equal_answers_decide_equality (env : Env) (n : Nat) (a b : Ty) :
+    (∀ g', eqAlg env n [] a b = .yes g' → TyEq env a b) ∧ (eqAlg env n [] a b = .no → ¬ TyEq env a b) :=
+  ⟨fun g' h => (eqAlg_sound_history env n [] g' a b (Ejustified_nil env) h).1,
+   fun h => equal_check_never_rejects_wrongly env n [] a b h⟩
+
 /-- **Type equality is an equivalence relation**, over any environment (unlike subtyping, which fails transitivity at
 `null`-typed fields): reflexive, symmetric, transitive. -/
 theorem type_equality_is_an_equivalence (env : Env) :
     (∀ a, TyEq env a a) ∧ (∀ a b, TyEq env a b → TyEq env b a) ∧ (∀ a b c, TyEq env a b → TyEq env b c → TyEq env a c) :=
   ⟨tyeq_refl env, fun _ _ h => Wire.tyeq_symm h, fun _ _ _ h1 h2 => Wire.tyeq_trans h1 h2⟩
 
-/-- **Equal types are subtypes of each other**: over an environment whose definitions resolve and have distinct
-field ids (`GoodEnv`), for such types without function or service references within reach (`FOT`), type equality
-gives subtyping in both directions.  (By coinduction: each equality rule is matched by the subtyping rule of the same
-shape, a name is unfolded on whichever side it stands; distinct ids make "the field at the same position" and "the
-field with the same id" the same field.) -/
-theorem equal_types_are_subtypes_both_ways (env : Env) (hg : Wire.GoodEnv env) (a b : Ty)
-    (hga : Wire.goodTy env a = true) (hgb : Wire.goodTy env b = true) (hfa : Wire.FOT env a) (hfb : Wire.FOT env b)
+/-- **Equal types are subtypes of each other**, function and service references included: over an environment and for
+types in which every name resolves, there is no placeholder or class type, and the ids of every record / variant and
+the method names of every service are distinct (`deepTy`, `DeepEnv` — what a type table or a checked program provides),
+type equality gives subtyping in both directions.  (By coinduction: each equality rule is matched by the subtyping
+rule of the same shape — function arguments through the symmetry of equality — a name is unfolded on whichever side it
+stands; distinct ids make "the field at the same position" and "the field with the same id" the same field.) -/
+theorem equal_types_are_subtypes_both_ways (env : Env) (hd : Wire.DeepEnv env) (a b : Ty)
+    (hda : Wire.deepTy env a = true) (hdb : Wire.deepTy env b = true)
     (h : TyEq env a b) : Sub env a b ∧ Sub env b a :=
-  Wire.tyeq_sub env hg a b hga hgb hfa hfb h
+  Wire.tyeq_sub_deep env hd a b hda hdb h
 
-/-- **… and so a successful `equal` check implies subtyping both ways** (same scope: first-order types; reference
-types are left to the differential check, op `sub.equal`). -/
-theorem equal_check_implies_subtyping_both_ways (env : Env) (hg : Wire.GoodEnv env) (n : Nat) (g' : Gamma) (a b : Ty)
-    (hga : Wire.goodTy env a = true) (hgb : Wire.goodTy env b = true) (hfa : Wire.FOT env a) (hfb : Wire.FOT env b)
+/-- **… and so a successful `equal` check implies subtyping both ways.** -/
+theorem equal_check_implies_subtyping_both_ways (env : Env) (hd : Wire.DeepEnv env) (n : Nat) (g' : Gamma) (a b : Ty)
+    (hda : Wire.deepTy env a = true) (hdb : Wire.deepTy env b = true)
     (h : eqAlg env n [] a b = .yes g') : Sub env a b ∧ Sub env b a :=
-  Wire.equal_sub_both env hg n g' a b hga hgb hfa hfb h
+  Wire.equal_sub_both_deep env hd n g' a b hda hdb h
+
+/-- the hypothesis on the environment, by evaluation -/
+theorem deep_environment_by_evaluation (env : Env) (h : Wire.deepEnvB env = true) : Wire.DeepEnv env :=
+  Wire.deepEnv_of_B env h
 
 namespace EqEx
-/-- `type A = record { x : opt A }; type B = record { x : opt B }` -/
-def env : Env := [("A", .record (.cons (.named "x") (.opt (.var "A")) .nil)),
-                  ("B", .record (.cons (.named "x") (.opt (.var "B")) .nil))]
+/-- `type A = record { x : opt A; f : func (A) -> (B) query }; type B = record { x : opt B; f : func (B) -> (A) query }` -/
+def env : Env :=
+  [("A", .record (.cons (.named "x") (.opt (.var "A")) (.cons (.named "f") (.func (.cons (.var "A") .nil) (.cons (.var "B") .nil) [.query]) .nil))),
+   ("B", .record (.cons (.named "x") (.opt (.var "B")) (.cons (.named "f") (.func (.cons (.var "B") .nil) (.cons (.var "A") .nil) [.query]) .nil)))]
 def accepted : Res → Bool | .yes _ => true | _ => false
 end EqEx
 
-/-- non-vacuity: two recursive definitions that differ only in their names are accepted by the `equal` check and
-meet the decidable sufficient conditions of the hypotheses -/
+/-- non-vacuity: two mutually recursive definitions with function references that differ only in their names are
+accepted by the `equal` check and meet the hypotheses -/
 example :
-    EqEx.accepted (eqAlg EqEx.env 10 [] (.var "A") (.var "B")) = true ∧
-    Wire.goodTy EqEx.env (.var "A") = true ∧ Wire.goodTy EqEx.env (.var "B") = true ∧
-    De.allEnv Wire.fo1 EqEx.env = true ∧ De.allEnv (fun t => Wire.goodTy EqEx.env t) EqEx.env = true := by
-  refine ⟨by decide +kernel, by decide +kernel, by decide +kernel, by decide +kernel, by decide +kernel⟩
+    EqEx.accepted (eqAlg EqEx.env 20 [] (.var "A") (.var "B")) = true ∧
+    Wire.deepTy EqEx.env (.var "A") = true ∧ Wire.deepTy EqEx.env (.var "B") = true ∧ Wire.deepEnvB EqEx.env = true := by
+  refine ⟨by decide +kernel, by decide +kernel, by decide +kernel, by decide +kernel⟩
 
 end Candid.Props.C05
